@@ -4,6 +4,14 @@ policies), BTree, TransactionManager + StorageTransaction (isolation levels).
 Everything here is a generator API driven from `Proc` workers; `LSMTree.handle_event`
 ('CompactionTrigger') is reached with plain events.  Memtables are tiny so that flushes and
 compactions (which take positive time) overlap the reads, writes and scans of other workers.
+
+Besides the contention builders there are
+  * degenerate builders: operations on EMPTY structures, gets / deletes / scans that match
+    nothing (range between two keys, outside the key space, start > end, start == end),
+    flush / compaction / crash / recover / truncate with nothing in them, empty transactions;
+  * proportion builders: memtable_size 1, SSTables whose key count sits on the 16-key page
+    boundary, BTree key counts that are exact multiples of the leaf capacity (+-1).
+Structural counts (memtable size, BTree order, number of keys) come from `p.count`.
 """
 
 from __future__ import annotations
@@ -27,7 +35,18 @@ from happysimulator.components.storage import (
 from hsverif.scenarios import Scenario, scenario
 from hsverif.scenarios._kit import P, Proc, ev, make_sim
 
-KEYS = ["a0", "h1", "m2", "q3", "x4", "k5"]
+KEYS = ["a0", "h1", "m2", "q3", "x4", "k5", "c6", "t7"]
+MISSING = "zz-missing"
+# (start, end) ranges that match nothing in KEYS (+ the n*/p*/y*/z* keys the workers add):
+EMPTY_RANGES = [
+    ("a1", "a9"),  # between two keys
+    ("zzz0", "zzz9"),  # above the key space
+    ("!", "0"),  # below the key space
+    ("x", "b"),  # start > end
+    ("m2", "m2"),  # start == end (half-open: empty even though m2 exists)
+    ("", ""),  # empty strings
+]
+FULL_RANGE = ("", "~")
 
 
 def _start(sim, procs, arrivals):
@@ -43,78 +62,101 @@ def _ns(seconds: float) -> int:
     return max(1, int(round(seconds * 1e9)))
 
 
+def _keys(p: P, i: int = 2, default: int = 6, lo: int = 1) -> list[str]:
+    return KEYS[: p.count(i, default, lo=lo, hi=len(KEYS))]
+
+
+def _empty_scans(store, i):
+    """Scan ranges matching nothing; returns the (always empty) results' sizes."""
+    out = []
+    for j in range(2):
+        a, b = EMPTY_RANGES[(i + j * 3) % len(EMPTY_RANGES)]
+        r = yield from store.scan(a, b)
+        out.append(len(r))
+    return out
+
+
 # ----------------------------------------------------------------------
 # LSMTree
 
 
-def _lsm_body(lsm, hold):
+def _lsm_body(lsm, keys, hold):
+    def K(j):
+        return keys[j % len(keys)]
+
     def body(proc, event):
         i = _w(event)
-        k = KEYS[i % 3]
+        k = K(i % 3)
         if i % 4 == 0:
             yield from lsm.put(k, i)
-            yield from lsm.put(KEYS[3 + i % 3], i)  # second distinct key: memtable full -> flush
+            yield from lsm.put(K(3 + i % 3), i)  # second distinct key: memtable full -> flush
             r = yield from lsm.get(k)
         elif i % 4 == 1:
             r0 = yield from lsm.get(k)  # while the writers are flushing / compacting
             yield hold
             r1 = yield from lsm.scan("a", "z")
-            r = (r0, len(r1))
+            r2 = yield from _empty_scans(lsm, i)
+            r = (r0, len(r1), r2)
         elif i % 4 == 2:
             yield from lsm.put(k, i)
             yield from lsm.delete(k)
+            yield from lsm.delete(MISSING)  # tombstone for a key that never existed
             r = yield from lsm.get(k)
         else:
             yield from lsm.put(f"n{i}", i)
             yield from lsm.put(f"p{i}", i)
             yield hold
-            r0 = yield from lsm.get(KEYS[0])
-            r1 = yield from lsm.get("zz-missing")
+            r0 = yield from lsm.get(K(0))
+            r1 = yield from lsm.get("zz-never")
             r = (r0, r1)
         # second, de-synchronised round: fresh keys -> more flushes, deeper levels
         yield hold * (1 + i % 3) / 3
         yield from lsm.put(f"y{i}", i)
         yield from lsm.put(f"z{i % 2}", i)
-        r2 = yield from lsm.get(KEYS[(i + 1) % 3])
-        proc.log.append(str((r, r2)))
+        r2 = yield from lsm.get(K((i + 1) % 3))
+        r3 = yield from _empty_scans(lsm, i + 1)  # now against several levels of SSTables
+        proc.log.append(str((r, r2, r3)))
         proc.done += 1
 
     return body
 
 
-def _lsm_scenario(p, strategy, sync_policy, use_wal=True, n_default=8, operator=None):
+def _lsm_scenario(p, strategy, sync_policy, use_wal=True, n_default=8, operator=None, memtable_size=None, max_levels=3, n_trig=6):
     wal = None
     if use_wal:
         wal = WriteAheadLog("wal", sync_policy=sync_policy, write_latency=p.lat(0), sync_latency=p.lat(1))
+    msize = memtable_size if memtable_size is not None else p.count(0, 2, lo=1, hi=5)
     lsm = LSMTree(
         "lsm",
-        memtable_size=2,
+        memtable_size=msize,
         compaction_strategy=strategy,
         wal=wal,
         sstable_read_latency=p.lat(2),
         sstable_write_latency=p.lat(3),
-        max_levels=3,
+        max_levels=max_levels,
     )
     arr = p.arrivals(n_default)
-    procs = [Proc(f"w{i}", _lsm_body(lsm, p.hold())) for i in range(len(arr))]
+    procs = [Proc(f"w{i}", _lsm_body(lsm, _keys(p), p.hold())) for i in range(len(arr))]
     ents = [lsm, *([wal] if wal is not None else []), *procs]
     op = Proc("operator", operator(lsm, wal)) if operator is not None else None
     if op is not None:
         ents.append(op)
     sim = make_sim(ents, p.end())
     _start(sim, procs, arr)
-    # external compaction triggers sprinkled over the period in which flushes are running
+    # external compaction triggers: one BEFORE anything was written (empty tree), the others
+    # sprinkled over the period in which flushes are running
     step = _ns(p.lat(3) + p.lat(0))
-    n_trig = 6
+    sim.schedule(ev(0, "CompactionTrigger", lsm))
     for j in range(n_trig):
         sim.schedule(ev(min(arr) + (j + 1) * step, "CompactionTrigger", lsm))
+    sim.schedule(ev(min(arr), "SomethingElse", lsm))  # an event type the tree ignores
     if op is not None:
         sim.schedule(ev(min(arr), "start", op, worker=-1))
     comps = {"lsm": lsm}
     if wal is not None:
         comps["wal"] = wal
-    n = len(arr) + n_trig + (1 if op is not None else 0)
-    return Scenario(sim, comps, "storage", True, n, notes=type(lsm._compaction_strategy).__name__)
+    n = len(arr) + n_trig + 2 + (1 if op is not None else 0)
+    return Scenario(sim, comps, "storage", True, n, notes=f"{type(lsm._compaction_strategy).__name__} memtable={msize}")
 
 
 @scenario("storage.lsm_size_tiered_wal", "storage")
@@ -145,6 +187,24 @@ def lsm_no_wal_default_strategy(seed, params):
     return _lsm_scenario(p, None, None, use_wal=False, n_default=12)
 
 
+@scenario("storage.lsm_memtable_one", "storage")
+def lsm_memtable_one(seed, params):
+    """memtable_size=1: EVERY put / delete flushes; two levels only, so compactions land on the
+    last level where tombstones are dropped (a put + delete pair compacts to nothing)."""
+    p = P(params, seed)
+    strat = [SizeTieredCompaction(min_sstables=2), LeveledCompaction(level_0_max=1, size_ratio=1, base_size_keys=1), FIFOCompaction(max_total_sstables=1)][
+        int(p.x("v", seed)) % 3
+    ]
+    return _lsm_scenario(p, strat, SyncOnBatch(batch_size=1), n_default=5, memtable_size=1, max_levels=2, n_trig=3)
+
+
+@scenario("storage.lsm_single_level", "storage")
+def lsm_single_level(seed, params):
+    """max_levels=1: source level == target level, every compaction rewrites L0 in place."""
+    p = P(params, seed)
+    return _lsm_scenario(p, SizeTieredCompaction(min_sstables=2), SyncPeriodic(interval_s=p.lat(4) * 100), n_default=5, max_levels=1, n_trig=3)
+
+
 @scenario("storage.lsm_crash_recover", "storage")
 def lsm_crash_recover(seed, params):
     """An operator crashes the tree (memtable + unsynced WAL lost) while writers are active,
@@ -168,31 +228,75 @@ def lsm_crash_recover(seed, params):
     return _lsm_scenario(p, SizeTieredCompaction(min_sstables=3), SyncOnBatch(batch_size=3), operator=operator)
 
 
+@scenario("storage.lsm_page_boundary", "storage")
+def lsm_page_boundary(seed, params):
+    """SSTables of 15 / 16 / 17 keys (x.v mod 3): the flush, compaction and scan costs are
+    computed from key_count // 16, so these sit on both sides of the page boundary.  One loader
+    fills two memtables while readers scan empty, partial and full ranges."""
+    p = P(params, seed)
+    size = 15 + int(p.x("v", seed)) % 3
+    lsm = LSMTree("lsm", memtable_size=size, compaction_strategy=SizeTieredCompaction(min_sstables=2), sstable_read_latency=p.lat(2), sstable_write_latency=p.lat(3), max_levels=3)
+    hold = p.hold()
+
+    def loader(proc, event):
+        for j in range(2 * size + 1):
+            yield from lsm.put(f"k{j:03d}", j)
+        proc.done += 1
+
+    def reader(proc, event):
+        i = _w(event)
+        out = []
+        for rnd in range(3):
+            out.append(len((yield from lsm.scan("k000", f"k{(i * 7 + rnd * 11) % (2 * size):03d}"))))  # partial (maybe empty)
+            out.append(len((yield from lsm.scan(*FULL_RANGE))))
+            out += yield from _empty_scans(lsm, i + rnd)
+            out.append((yield from lsm.get(f"k{(i + rnd) % size:03d}")))
+            yield hold
+        proc.log.append(str(out))
+        proc.done += 1
+
+    arr = p.arrivals(3)
+    procs = [Proc(f"r{i}", reader) for i in range(len(arr))]
+    ld = Proc("loader", loader)
+    sim = make_sim([lsm, ld, *procs], p.end())
+    sim.schedule(ev(min(arr), "start", ld, worker=-1))
+    _start(sim, procs, arr)
+    return Scenario(sim, {"lsm": lsm}, "storage", True, len(arr) + 1, notes=f"memtable={size}")
+
+
 # ----------------------------------------------------------------------
 # Memtable / SSTable / WriteAheadLog used directly
 
 
 @scenario("storage.memtable_direct", "storage")
 def memtable_direct(seed, params):
-    """A stand-alone Memtable: timed put / get from many workers; the worker that fills it
-    flushes it to an SSTable (whose lookup API is synchronous) while the others keep going."""
+    """A stand-alone Memtable (threshold = count 0): reads and a flush while it is still EMPTY,
+    timed put / get from many workers; the worker that fills it flushes it to an SSTable
+    (whose lookup API is synchronous) while the others keep going."""
     p = P(params, seed)
-    mt = Memtable("memtable", size_threshold=p.cap(2) + 1, write_latency=p.lat(0), read_latency=p.lat(1))
+    mt = Memtable("memtable", size_threshold=p.count(0, 3, lo=1, hi=8), write_latency=p.lat(0), read_latency=p.lat(1))
     tables: list[SSTable] = []
     hold = p.hold()
+    keys = _keys(p, default=4)
 
     def body(proc, event):
         i = _w(event)
-        k = KEYS[i % 4]
+        k = keys[i % len(keys)]
+        if i == 0:
+            v = yield from mt.get(k)  # empty memtable
+            sst0 = mt.flush()  # empty SSTable
+            proc.log.append((v, sst0.key_count, sst0.get(k), len(sst0.scan()), sst0.page_reads_for_get(k), sst0.page_reads_for_scan("a", "z"), sst0.min_key))
         full = yield from mt.put(k, i)
-        v = yield from mt.get(KEYS[(i + 1) % 4])
+        v = yield from mt.get(keys[(i + 1) % len(keys)])
+        vm = yield from mt.get(MISSING)
         if full:
             yield hold
             sst = mt.flush()
             tables.append(sst)
-            proc.log.append((sst.key_count, sst.page_reads_for_get(k), sst.get(k) is not None, len(sst.scan("a", "z"))))
+            empties = [sst.page_reads_for_scan(a, b) for a, b in EMPTY_RANGES]
+            proc.log.append((sst.key_count, sst.page_reads_for_get(k), sst.get(k) is not None, len(sst.scan("a", "z")), empties))
         v2 = yield from mt.get(k)
-        proc.log.append((full, v, v2))
+        proc.log.append((full, v, vm, v2))
         proc.done += 1
 
     arr = p.arrivals(8)
@@ -205,12 +309,14 @@ def memtable_direct(seed, params):
 @scenario("storage.wal_sync_policies", "storage")
 def wal_sync_policies(seed, params):
     """Three WALs (every-write / periodic / batch) appended to concurrently; a janitor
-    truncates, crashes and recovers them while appends are in flight."""
+    truncates / crashes / recovers them BEFORE anything was appended and again while appends
+    are in flight."""
     p = P(params, seed)
     wals = [
         WriteAheadLog("wal_every", sync_policy=SyncEveryWrite(), write_latency=p.lat(0), sync_latency=p.lat(1)),
         WriteAheadLog("wal_periodic", sync_policy=SyncPeriodic(interval_s=p.lat(2) * 2), write_latency=p.lat(3), sync_latency=p.lat(4)),
-        WriteAheadLog("wal_batch", sync_policy=SyncOnBatch(batch_size=p.cap(2) + 1), write_latency=p.lat(5), sync_latency=p.lat(6)),
+        WriteAheadLog("wal_batch", sync_policy=SyncOnBatch(batch_size=p.count(0, 3, lo=1, hi=12)), write_latency=p.lat(5), sync_latency=p.lat(6)),
+        WriteAheadLog("wal_default", write_latency=p.lat(7), sync_latency=p.lat(8)),  # default policy object
     ]
     hold = p.hold()
 
@@ -218,16 +324,21 @@ def wal_sync_policies(seed, params):
         i = _w(event)
         seqs = []
         for r in range(3):
-            w = wals[(i + r) % 3]
+            w = wals[(i + r) % len(wals)]
             s = yield from w.append(KEYS[i % 3], (i, r))
             seqs.append(s)
             if r == 0:
                 yield hold
-        wals[i % 3].append_sync("sync-key", i)
+        wals[i % len(wals)].append_sync("sync-key", i)
         proc.log.append(seqs)
         proc.done += 1
 
     def janitor(proc, event):
+        # nothing appended yet
+        for w in wals:
+            w.truncate(0)
+            w.truncate(10)
+        empty = [(w.crash(), len(w.recover()), w.size, w.synced_up_to) for w in wals]
         yield hold * 0.5
         for w in wals:
             w.truncate(w.synced_up_to // 2)
@@ -236,15 +347,18 @@ def wal_sync_policies(seed, params):
         rec = [len(w.recover()) for w in wals]
         yield hold
         s = yield from wals[0].append("post-crash", 0)
-        proc.log.append((lost, rec, s))
+        for w in wals:
+            w.truncate(10**9)  # everything
+        rec2 = [len(w.recover()) for w in wals]
+        proc.log.append((empty, lost, rec, s, rec2))
         proc.done += 1
 
     arr = p.arrivals(8)
     procs = [Proc(f"w{i}", body) for i in range(len(arr))]
     jan = Proc("janitor", janitor)
     sim = make_sim([*wals, jan, *procs], p.end())
+    sim.schedule(ev(0, "start", jan, worker=-1))
     _start(sim, procs, arr)
-    sim.schedule(ev(min(arr), "start", jan, worker=-1))
     return Scenario(sim, {w.name: w for w in wals}, "storage", True, len(arr) + 1)
 
 
@@ -254,17 +368,18 @@ def wal_sync_policies(seed, params):
 
 @scenario("storage.btree_contention", "storage")
 def btree_contention(seed, params):
-    """Order-3 BTree: inserts split nodes and grow the tree while gets, deletes and scans
-    of other workers are half-way down the old tree."""
+    """Small-order BTree (order = count 0, 3 by default): inserts split nodes and grow the tree
+    while gets, deletes and scans of other workers are half-way down the old tree."""
     p = P(params, seed)
-    bt = BTree("btree", order=3 + int(p.x("v", 0)) % 2, page_read_latency=p.lat(0), page_write_latency=p.lat(1))
-    for j, k in enumerate(KEYS[:3]):
+    bt = BTree("btree", order=p.count(0, 3, lo=3, hi=12), page_read_latency=p.lat(0), page_write_latency=p.lat(1))
+    keys = _keys(p)
+    for j, k in enumerate(keys[:3]):
         bt.put_sync(k, 100 + j)
     hold = p.hold()
 
     def body(proc, event):
         i = _w(event)
-        k = KEYS[i % len(KEYS)]
+        k = keys[i % len(keys)]
         if i % 4 == 0:
             yield from bt.put(f"{k}-{i}", i)
             yield from bt.put(k, i)
@@ -273,12 +388,14 @@ def btree_contention(seed, params):
             r0 = yield from bt.get(k)
             yield hold
             r1 = yield from bt.scan("a", "z")
-            r = (r0, len(r1))
+            r2 = yield from _empty_scans(bt, i)
+            r = (r0, len(r1), r2)
         elif i % 4 == 2:
             yield from bt.put(k, -i)
             r0 = yield from bt.delete(k)
-            r1 = yield from bt.delete("zz-missing")
-            r = (r0, r1)
+            r1 = yield from bt.delete(MISSING)
+            r2 = yield from bt.get(MISSING)
+            r = (r0, r1, r2)
         else:
             for j in range(3):
                 yield from bt.put(f"n{i}-{j}", j)
@@ -290,20 +407,145 @@ def btree_contention(seed, params):
     procs = [Proc(f"w{i}", body) for i in range(len(arr))]
     sim = make_sim([bt, *procs], p.end())
     _start(sim, procs, arr)
-    return Scenario(sim, {"btree": bt}, "storage", True, len(arr))
+    return Scenario(sim, {"btree": bt}, "storage", True, len(arr), notes=f"order={bt._order}")
+
+
+def _btree_fill(name, doc, delta):
+    @scenario(name, "storage")
+    def builder(seed, params):
+        p = P(params, seed)
+        order = p.count(1, 3, lo=3, hi=6)
+        leaf = order - 1
+        m = p.count(0, 3, lo=1, hi=6)
+        n = max(0, m * leaf + delta)
+        bt = BTree("btree", order=order, page_read_latency=p.lat(0), page_write_latency=p.lat(1))
+        hold = p.hold()
+
+        def loader(proc, event):
+            for j in range(n):
+                yield from bt.put(f"k{j:03d}", j)
+            proc.log.append((bt.size, bt.depth))
+            proc.done += 1
+
+        def reader(proc, event):
+            i = _w(event)
+            out = []
+            for rnd in range(3):  # round 0 mostly sees the EMPTY tree, later rounds the filled one
+                out.append((yield from bt.get("k000")))
+                out.append(len((yield from bt.scan(*FULL_RANGE))))  # 0, leaf-1, leaf, leaf+1 ... results
+                out.append(len((yield from bt.scan("k000", f"k{leaf * (1 + (i + rnd) % 3):03d}"))))  # exactly 1..3 leaves worth
+                out.append(len((yield from bt.scan("k000", "k000"))))
+                out += yield from _empty_scans(bt, i + rnd)
+                out.append((yield from bt.delete(MISSING)))
+                yield hold
+            if i % 2 == 0 and n:
+                out.append((yield from bt.delete(f"k{(n - 1):03d}")))  # one less
+                out.append(len((yield from bt.scan(*FULL_RANGE))))
+            proc.log.append(str(out))
+            proc.done += 1
+
+        arr = p.arrivals(3)
+        procs = [Proc(f"r{i}", reader) for i in range(len(arr))]
+        ld = Proc("loader", loader)
+        sim = make_sim([bt, ld, *procs], p.end())
+        _start(sim, procs, arr)  # readers first: they meet the empty tree
+        sim.schedule(ev(min(arr), "start", ld, worker=-1))
+        return Scenario(sim, {"btree": bt}, "storage", True, len(arr) + 1, notes=f"order={order} keys={n}")
+
+    builder.__doc__ = doc
+    return builder
+
+
+_btree_fill("storage.btree_exact_leaf_multiple", "Key count = m x (order-1): scans return exact multiples of the leaf capacity; readers start on the empty tree.", 0)
+_btree_fill("storage.btree_leaf_multiple_plus_one", "Key count = m x (order-1) + 1.", 1)
+_btree_fill("storage.btree_leaf_multiple_minus_one", "Key count = m x (order-1) - 1.", -1)
+
+
+# ----------------------------------------------------------------------
+# everything empty
+
+
+@scenario("storage.empty_structures", "storage")
+def empty_structures(seed, params):
+    """Every engine starts EMPTY and is asked for things that are not there before the first
+    write (worker i works on engine i mod 4): LSMTree (with and without WAL) get / scan /
+    delete / crash / recover / compaction trigger, BTree get / scan / delete, Memtable get /
+    flush, then one write and the same questions again."""
+    p = P(params, seed)
+    wal = WriteAheadLog("wal", sync_policy=SyncOnBatch(batch_size=2), write_latency=p.lat(0), sync_latency=p.lat(1))
+    lsm_w = LSMTree("lsm_wal", memtable_size=p.count(0, 2, lo=1, hi=4), compaction_strategy=FIFOCompaction(max_total_sstables=1), wal=wal, sstable_read_latency=p.lat(2), sstable_write_latency=p.lat(3), max_levels=2)
+    lsm_n = LSMTree("lsm_nowal", memtable_size=1, compaction_strategy=LeveledCompaction(level_0_max=1, size_ratio=1, base_size_keys=1), sstable_read_latency=p.lat(2), sstable_write_latency=p.lat(3), max_levels=2)
+    bt = BTree("btree", order=3, page_read_latency=p.lat(4), page_write_latency=p.lat(5))
+    mt = Memtable("memtable", size_threshold=1, write_latency=p.lat(6), read_latency=p.lat(7))
+    hold = p.hold()
+
+    def probe_lsm(lsm, i):
+        out = [(yield from lsm.get(KEYS[0])), len((yield from lsm.scan(*FULL_RANGE)))]
+        out += yield from _empty_scans(lsm, i)
+        if i % 2:
+            out.append(str(lsm.crash()))
+            out.append(str(lsm.recover_from_crash()))
+        yield from lsm.delete(KEYS[0])  # first ever write is a tombstone
+        out.append((yield from lsm.get(KEYS[0])))
+        out.append(len((yield from lsm.scan(*FULL_RANGE))))
+        return out
+
+    def probe_btree(i):
+        out = [(yield from bt.get(KEYS[0])), len((yield from bt.scan(*FULL_RANGE))), (yield from bt.delete(KEYS[0]))]
+        out += yield from _empty_scans(bt, i)
+        return out
+
+    def probe_memtable(i):
+        out = [(yield from mt.get(KEYS[0])), mt.flush().key_count, mt.is_full]
+        return out
+
+    def body(proc, event):
+        i = _w(event)
+        which = i % 4
+        if which == 0:
+            out = yield from probe_lsm(lsm_w, i)
+        elif which == 1:
+            out = yield from probe_lsm(lsm_n, i)
+        elif which == 2:
+            out = yield from probe_btree(i)
+        else:
+            out = yield from probe_memtable(i)
+        yield hold
+        eng = [lsm_w, lsm_n, bt, mt][which]
+        yield from eng.put(KEYS[1], i)
+        out.append((yield from eng.get(KEYS[1])))
+        if which == 0:
+            out += yield from probe_lsm(lsm_w, i + 1)
+        elif which == 1:
+            out += yield from probe_lsm(lsm_n, i + 1)
+        elif which == 2:
+            out += yield from probe_btree(i + 1)
+            out.append((yield from bt.delete(KEYS[1])))
+            out.append(len((yield from bt.scan(*FULL_RANGE))))  # empty again
+        proc.log.append(str(out))
+        proc.done += 1
+
+    arr = p.arrivals(8)
+    procs = [Proc(f"w{i}", body) for i in range(len(arr))]
+    sim = make_sim([wal, lsm_w, lsm_n, bt, mt, *procs], p.end())
+    for t in (0, min(arr), min(arr) + _ns(p.lat(3))):
+        sim.schedule(ev(t, "CompactionTrigger", lsm_w))
+        sim.schedule(ev(t, "CompactionTrigger", lsm_n))
+    _start(sim, procs, arr)
+    return Scenario(sim, {"lsm_wal": lsm_w, "lsm_nowal": lsm_n, "btree": bt, "memtable": mt, "wal": wal}, "storage", True, len(arr) + 6)
 
 
 # ----------------------------------------------------------------------
 # TransactionManager
 
 
-def _txn_scenario(p, level: IsolationLevel, store_kind: str):
+def _txn_scenario(p, level: IsolationLevel, store_kind: str, seeded: bool = True):
     ents = []
     if store_kind == "lsm":
         wal = WriteAheadLog("wal", sync_policy=SyncOnBatch(batch_size=2), write_latency=p.lat(0), sync_latency=p.lat(1))
         store = LSMTree(
             "store",
-            memtable_size=2,
+            memtable_size=p.count(0, 2, lo=1, hi=5),
             compaction_strategy=SizeTieredCompaction(min_sstables=2),
             wal=wal,
             sstable_read_latency=p.lat(2),
@@ -312,23 +554,40 @@ def _txn_scenario(p, level: IsolationLevel, store_kind: str):
         )
         ents += [store, wal]
     else:
-        store = BTree("store", order=3, page_read_latency=p.lat(2), page_write_latency=p.lat(3))
+        store = BTree("store", order=p.count(0, 3, lo=3, hi=12), page_read_latency=p.lat(2), page_write_latency=p.lat(3))
         ents += [store]
     tm = TransactionManager("tm", store, isolation=level, deadlock_detection=True)
     hold = p.hold()
     levels = list(IsolationLevel)
+    keys = _keys(p, lo=2)
+
+    def K(j):
+        return keys[j % len(keys)]
 
     def body(proc, event):
         i = _w(event)
+        if i % 6 == 5:  # degenerate transactions
+            t1 = yield from tm.begin()
+            ok1 = yield from t1.commit()  # empty transaction
+            t2 = yield from tm.begin(isolation=levels[i % 3])
+            t2.abort()  # empty transaction
+            t2.abort()  # abort twice
+            t3 = tm.begin_sync()
+            vm = yield from t3.read(MISSING)  # missing key
+            vm2 = yield from t3.read(MISSING)
+            ok3 = yield from t3.commit()  # read-only
+            proc.log.append((ok1, t2.is_active, vm, vm2, ok3, tm.active_transactions))
+            proc.done += 1
+            return
         if i % 4 == 3:
             tx = tm.begin_sync(isolation=levels[i % 3])  # per-transaction override
         else:
             tx = yield from tm.begin()
-        v0 = yield from tx.read(KEYS[0])  # everybody reads the hot key ...
+        v0 = yield from tx.read(K(0))  # everybody reads the hot key ...
         yield hold
-        yield from tx.write(KEYS[i % 2], i)  # ... and half of them write it
-        v1 = yield from tx.read(KEYS[i % 2])  # own write
-        v2 = yield from tx.read(KEYS[2 + i % 3])
+        yield from tx.write(K(i % 2), i)  # ... and half of them write it
+        v1 = yield from tx.read(K(i % 2))  # own write
+        v2 = yield from tx.read(K(2 + i % 3))
         if i % 5 == 4:
             tx.abort()
             ok = None
@@ -340,7 +599,7 @@ def _txn_scenario(p, level: IsolationLevel, store_kind: str):
     def seeder(proc, event):
         # committed before the burst: the data the others read through the storage engine
         tx = yield from tm.begin()
-        for j, k in enumerate(KEYS):
+        for j, k in enumerate(keys):
             yield from tx.write(k, 100 + j)
         ok = yield from tx.commit()
         proc.log.append(ok)
@@ -350,7 +609,8 @@ def _txn_scenario(p, level: IsolationLevel, store_kind: str):
     procs = [Proc(f"t{i}", body) for i in range(len(arr))]
     sd = Proc("seeder", seeder)
     sim = make_sim([*ents, tm, sd, *procs], p.end())
-    sim.schedule(ev(0, "start", sd, worker=-1))
+    if seeded:
+        sim.schedule(ev(0, "start", sd, worker=-1))
     _start(sim, procs, arr)
     return Scenario(sim, {"tm": tm, "store": store}, "storage", True, len(arr) + 1, notes=level.name)
 
@@ -372,3 +632,60 @@ def txn_read_committed_lsm(seed, params):
     """No conflict detection (read committed): every commit goes to the LSMTree synchronously,
     flushing and compacting it inside commit()."""
     return _txn_scenario(P(params, seed), IsolationLevel.READ_COMMITTED, "lsm")
+
+
+@scenario("storage.txn_empty_store", "storage")
+def txn_empty_store(seed, params):
+    """The same transactions over a store nobody seeded: every first read misses (BTree for
+    even x.v, LSMTree for odd), isolation level = x.v mod 3."""
+    p = P(params, seed)
+    v = int(p.x("v", seed))
+    return _txn_scenario(p, list(IsolationLevel)[v % 3], "btree" if v % 2 == 0 else "lsm", seeded=False)
+
+
+# ----------------------------------------------------------------------
+# default construction
+
+
+@scenario("storage.default_construction", "storage")
+def default_construction(seed, params):
+    """Every engine built with its DEFAULT arguments (memtable of 1000 entries, order-128 BTree,
+    default WAL policy, default isolation level); only the workload comes from the parameters."""
+    p = P(params, seed)
+    wal = WriteAheadLog("wal")
+    lsm = LSMTree("lsm", wal=wal)
+    lsm2 = LSMTree("lsm_nowal")
+    bt = BTree("btree")
+    mt = Memtable("memtable")
+    tm = TransactionManager("tm", bt)
+    hold = p.hold()
+    engines = [lsm, lsm2, bt]
+
+    def body(proc, event):
+        i = _w(event)
+        e = engines[i % 3]
+        out = [(yield from e.get(KEYS[0])), len((yield from e.scan(*FULL_RANGE)))]
+        out += yield from _empty_scans(e, i)
+        for j in range(3):
+            yield from e.put(KEYS[(i + j) % len(KEYS)], i)
+        yield hold
+        out.append((yield from e.get(KEYS[i % len(KEYS)])))
+        out.append(len((yield from e.scan("a", "z"))))
+        yield from e.delete(KEYS[i % len(KEYS)])
+        out.append((yield from e.get(KEYS[i % len(KEYS)])))
+        full = yield from mt.put(KEYS[i % len(KEYS)], i)
+        out.append((full, (yield from mt.get(KEYS[0]))))
+        tx = yield from tm.begin()
+        out.append((yield from tx.read(KEYS[1])))
+        yield from tx.write(KEYS[1], i)
+        out.append((yield from tx.commit()))
+        s = yield from wal.append("direct", i)
+        proc.log.append(str((out, s)))
+        proc.done += 1
+
+    arr = p.arrivals(6)
+    procs = [Proc(f"w{i}", body) for i in range(len(arr))]
+    sim = make_sim([wal, lsm, lsm2, bt, mt, tm, *procs], p.end())
+    sim.schedule(ev(min(arr), "CompactionTrigger", lsm))
+    _start(sim, procs, arr)
+    return Scenario(sim, {"lsm": lsm, "lsm_nowal": lsm2, "btree": bt, "memtable": mt, "tm": tm, "wal": wal}, "storage", True, len(arr) + 1)
